@@ -76,25 +76,23 @@ namespace PugiXmlExtensions
 		return node.attribute(key);
 	}
 
+	/// <summary>
+	/// Converts a text value (of a node or an attribute) to the target arithmetic type according to the policies.
+	/// </summary>
 	template <typename T, std::enable_if_t<std::is_arithmetic_v<T>, int> = 0>
-	bool LoadValue(const pugi::xml_node& node, T& value, const SerializationOptions& serializationOptions)
+	bool LoadValueFromString(const pugi::char_t* strValue, T& value, const SerializationOptions& serializationOptions)
 	{
 		try
 		{
-			// Empty node is treated as Null
-			if (const pugi::char_t* strValue = node.text().as_string(nullptr))
-			{
-				value = Convert::To<T>(strValue);
-				return true;
-			}
-			return false;
+			value = Convert::To<T>(strValue);
+			return true;
 		}
 		catch (const std::out_of_range&)
 		{
 			if (serializationOptions.overflowNumberPolicy == OverflowNumberPolicy::ThrowError)
 			{
 				throw SerializationException(SerializationErrorCode::Overflow,
-					std::string("The size of target field is not sufficient to deserialize number: ") + node.text().as_string());
+					std::string("The size of target field is not sufficient to deserialize number: ") + Convert::ToString(strValue));
 			}
 		}
 		catch (...)
@@ -102,8 +100,18 @@ namespace PugiXmlExtensions
 			if (serializationOptions.mismatchedTypesPolicy == MismatchedTypesPolicy::ThrowError)
 			{
 				throw SerializationException(SerializationErrorCode::MismatchedTypes,
-					std::string("The type of target field does not match the value being loaded: ") + node.text().as_string());
+					std::string("The type of target field does not match the value being loaded: ") + Convert::ToString(strValue));
 			}
+		}
+		return false;
+	}
+
+	template <typename T, std::enable_if_t<std::is_arithmetic_v<T>, int> = 0>
+	bool LoadValue(const pugi::xml_node& node, T& value, const SerializationOptions& serializationOptions)
+	{
+		// Empty node is treated as Null
+		if (const pugi::char_t* strValue = node.text().as_string(nullptr)) {
+			return LoadValueFromString(strValue, value, serializationOptions);
 		}
 		return false;
 	}
@@ -313,34 +321,14 @@ public:
 				return std::is_null_pointer_v<T>;
 			}
 
-			if constexpr (std::is_same_v<T, bool>) {
-				value = attr.as_bool();
+			if constexpr (std::is_null_pointer_v<T>) {
+				return true;
 			}
-			else if constexpr (std::is_integral_v<T>)
+			else
 			{
-				if constexpr (std::is_same_v<T, int64_t>) {
-					value = attr.as_llong();
-				}
-				else if constexpr (std::is_same_v<T, uint64_t>) {
-					value = attr.as_ullong();
-				}
-				else if constexpr (std::is_unsigned_v<T>) {
-					value = static_cast<T>(attr.as_uint());
-				}
-				else {
-					value = static_cast<T>(attr.as_int());
-				}
+				// Convert in the same way as values of nodes (with handling overflow and mismatched types policies)
+				return PugiXmlExtensions::LoadValueFromString(attr.value(), value, this->GetOptions());
 			}
-			else if constexpr (std::is_floating_point_v<T>)
-			{
-				if constexpr (std::is_same_v<T, float>) {
-					value = attr.as_float();
-				}
-				else if constexpr (std::is_same_v<T, double>) {
-					value = attr.as_double();
-				}
-			}
-			return true;
 		}
 		else
 		{
